@@ -134,6 +134,11 @@ def affine_eq(a, b):
     return x[0] == y[0] and x[1] == y[1]
 
 
+def affine_eq_norm(x, y):
+    """equality of two affine normal forms ([coeffs, const])"""
+    return dict(x[0]) == dict(y[0]) and x[1] % (1 << 64) == y[1] % (1 << 64)
+
+
 def eval_term(t, env, path=None):
     """value of a term with every leaf given by env (a class representative); None when some part is not evaluable"""
     if t in env:
